@@ -203,7 +203,7 @@ pub fn run(cfg: &Cfg) -> i32 {
                 jumps: h % 3 == 2,
                 cont_max: false,
                 set_vars: h % 2 == 1,
-                stop_at_end: true,
+                stop_at_end: true, bad_calls: false,
                 jump_targets: None,
             };
             let host = host_for(c, 5 + h as i32);
